@@ -86,6 +86,23 @@ CHECKS = {
         "flat-dictionary deviation model; macro-related scoping is checked "
         "under C09.",
         "DESIGN.md 3/C05"),
+    "C11": (
+        "fault_enumeration",
+        "fault planting with generator-known coordinates + slice / line / "
+        "column consistency oracle",
+        "One language error is planted in a valid generated template: "
+        "invalid Python at any expression site (statement argument, "
+        "';'-separated part, ${} in text or attribute, later pipe "
+        "alternative) or one of 34 statement-level errors from a catalogue. "
+        "Construction must raise a TemplateError whose token is the planted "
+        "text (or lies inside the faulty construct), whose offset slices the "
+        "token out of the source, whose line/column agree with the offset "
+        "and appear in the message.",
+        "The serializer's recorded offsets are the ground truth; K9 and K12 "
+        "are attributed by snippet / by the exact entity shift; that valid "
+        "templates are never rejected is asserted on every valid template "
+        "generated by C01, C03 and C04.",
+        "DESIGN.md 3/C11"),
     "C13": (
         "fault_enumeration",
         "Hypothesis template generation with planted faults + reference "
